@@ -136,7 +136,12 @@ struct World {
 async fn issue(w: &World, r: &Req) -> Result<String, String> {
     match &r.via {
         Via::Api => match tokio::time::timeout(Duration::from_secs(40), w.client.create_proxy_stream((r.host.clone(), r.port))).await {
-            Ok(Ok(_)) => Ok("open_ok".into()),
+            Ok(Ok((_st, sess))) => {
+                // the monitor does not use the tunnel: end the session so that its sockets are freed
+                let _ = tokio::time::timeout(Duration::from_secs(5), sess.close()).await;
+                Ok("open_ok".into())
+            }
+            Ok(Err(e)) if e.to_string().contains("os error 24") => Err(format!("file descriptors exhausted: {e}")),
             Ok(Err(e)) => Ok(format!("open_err:{e}")),
             Err(_) => Err("create_proxy_stream did not return in 40 s".into()),
         },
@@ -213,6 +218,10 @@ fn judge(rep: &mut Report, r: &Req, outcome: &Result<String, String>, events: &[
     rep.add(&format!("requests_via_{}", match r.via { Via::Api => "api", Via::Socks5 => "socks5", Via::FragmentedHeader(_) => "fragmented_header" }), 1);
     if let Err(e) = outcome {
         rep.inconclusive(format!("{key}: {e}"));
+        return;
+    }
+    if outcome.as_ref().is_ok_and(|o| o.contains("os error 24")) {
+        rep.inconclusive(format!("{key}: file descriptors exhausted on the way ({:?})", outcome));
         return;
     }
     // the decoded destination (host string may be re-formatted for literals: compare parsed)
